@@ -104,6 +104,11 @@ func ruleR06ab(c *Ctx) {
 			theCall := call
 			pr := &PathRule{
 				Step: func(pc *PathCtx, s uint64, ins ssa.Instruction) uint64 {
+					if w := m.waitedDone(c, ins); w != nil {
+						if e, ok := w.(*ssa.Extract); ok && e.Tuple == ssa.Value(theCall) && e.Index == ch {
+							return s &^ pending
+						}
+					}
 					switch x := ins.(type) {
 					case *ssa.Call:
 						if x == theCall {
